@@ -76,3 +76,16 @@ func init() {
 		},
 	})
 }
+
+func init() {
+	register(&propSpec{
+		ID: "C20", Level: "exploration",
+		QuickRuns: 2400, QuickSecs: 150, ThorRuns: 300000, ThorSecs: 1500,
+		Rule: "one evaluation = one seeded case, one of: (gen) a program assembled from 1-6 parts aimed at code that ranges over Go maps (classes with defaulted properties, inheritance, dynamic properties, json_decode, array literals, ~50 array/string/reflection builtins, uncaught throw), run on fresh VMs in-process under 6 chosen map iteration orders (sorted, reverse, 4 seeded permutations per site and call) plus lines whose content the generator knows from construction (insertion order); (pair) program A that leaves state behind (open output buffers, ini, handlers, autoloaders, superglobal writes, statics, env, ...) then probe program B on another fresh VM in the same process vs B alone; (corpus) a deterministic file of tests/ run as a fresh OS process of the instrumented binary under 3 map orders comparing stdout, stderr and exit status. A difference is bisected to the one range-over-map statement that causes it. Every case is non-trivial; distinct = distinct hash of (case, reference result).",
+		Assume: []string{
+			"the adversary is Go map iteration order at the 110 rewritten range-over-map sites (ordered key types) and the one sync.Map.Range site; maps ranged inside the Go standard library or third-party modules are not controlled",
+			"corpus files that call time, random, network, filesystem-mutating, process or sleep builtins are excluded by name; a file whose two runs under the same order differ is discarded (counted)",
+			"timestamps printed by Log:: are normalised in subprocess output",
+		},
+	})
+}
